@@ -182,6 +182,12 @@ impl PlFold for Flattener {
                     self.sort.clone()
                 };
 
+                // An aggregation resets the order: its result has none of the columns the
+                // sort referred to, so the transforms that follow must not inherit it.
+                if matches!(kind, TransformKind::Aggregate { .. }) {
+                    self.sort.clear();
+                }
+
                 ExprKind::TransformCall(TransformCall {
                     input: Box::new(input),
                     kind: Box::new(kind),
